@@ -37,13 +37,18 @@ def check(run):
     embed_total, edges_tested = {}, 0
     try:
         nprog = 32 if quick else 200
-        for pi in range(nprog):
-            from jugverif import genprog
-            P = E.prepare(rng, scratch, rng.choice([6, 9, 12]) if quick else rng.choice([6, 9, 12, 20, 30]), want=genprog.RARE[pi % len(genprog.RARE)])
+        from jugverif import genprog
+        fixed = genprog.single_link_programs()
+        for pi in range(nprog + len(fixed)):
+            if pi < len(fixed):
+                # every embedding kind as the ONLY link between a producer and a consumer
+                P = E.analyse_text(fixed[pi].text, scratch, fixed[pi].embed)
+            else:
+                P = E.prepare(rng, scratch, rng.choice([6, 9, 12]) if quick else rng.choice([6, 9, 12, 20, 30]), want=genprog.RARE[pi % len(genprog.RARE)])
             for k, v in P['embed'].items():
                 embed_total[k] = embed_total.get(k, 0) + v
             cases = []
-            for backend in X.BACKENDS:
+            for backend in (X.BACKENDS if pi >= len(fixed) else [X.BACKENDS[pi % len(X.BACKENDS)]]):
                 nw = rng.choice([2, 3])
                 cases.append({'backend': backend, 'nworkers': nw, 'sched_seed': rng.randrange(10 ** 9), 'flags': {w: [False, False, rng.random() < 0.5] for w in range(nw)},
                               'pre_done': max(1, P['n'] // 3) if backend == 'filepack' else 0})
